@@ -8,7 +8,7 @@
    theorem [pre] is whatever the stream already held, [p] any read position, [post] whatever
    is written afterwards: the value is read back at the position where it was written,
    the cursor advances by exactly the bytes written, and the buffer is unchanged. *)
-From Got Require Import Base Octets OctetsSpec OctetsProofs.
+From Got Require Import Base Octets OctetsSpec OctetsProofs OctetsInterleaved.
 Local Open Scope Z_scope.
 
 (* ---- round trip, one theorem per type (all values of the type: ranges are the Go types) *)
@@ -90,6 +90,72 @@ Theorem c11_rt_sequence : forall v xs pre p post,
 Proof. exact rt_sequence_lemma. Qed.
 Print Assumptions c11_rt_sequence.
 
+(* ---- interleaved use of ONE stream.  A schedule says which call comes next: the next
+   write W(v_i) (in the order of xs) or the next read R(i) (in the same order, each with the
+   call matching the type of v_i, through the stream or the reader wrapper); FIFO discipline
+   = at every prefix of the schedule #reads <= #writes <= length xs (oct_fifo_sched, a
+   boolean).  The stream may already hold any, fully consumed, bytes [pre].
+   oct_run_sched (models/Octets.v) performs the calls in that order on the model and records
+   for every read (Position() before the call, (result, stream after, alloc)).
+   oct_read_matches ax pr (proofs/OctetsInterleaved.v) :=
+       result of pr = Ok (snd ax)  /\  Position() after = Position() before + length (oct_wire (snd ax))
+       /\  alloc = oct_val_alloc (snd ax).
+   For every such schedule: no call fails (the run is Some, every read result is Ok), the
+   k-th read returns the k-th value written and advances the cursor by exactly the bytes of
+   that value, the buffer is pre ++ the wire formats of the values written so far, the cursor
+   is behind the values read so far; when everything was written and read back:
+   position = len = length pre + total bytes written. *)
+Theorem c11_rt_interleaved : forall v xs (sch : list bool) pre,
+  forallb (fun ax => oct_val_ok (snd ax)) xs = true ->
+  oct_fifo_sched sch (length xs) = true ->
+  let nw := length (filter (fun b => b) sch) in      (* writes in the schedule *)
+  let nr := length (filter negb sch) in              (* reads in the schedule *)
+  exists obs s',
+    oct_run_sched v (map oct_sop_of_bool sch) xs [] {| oct_buf := pre; oct_pos := length pre |} = Some (obs, s') /\
+    Forall2 oct_read_matches (firstn nr xs) (oct_obs_reads obs) /\
+    map oct_rd_value (oct_obs_reads obs) = map (fun ax => Ok (snd ax)) (firstn nr xs) /\
+    oct_buf s' = pre ++ oct_wire_all (firstn nw xs) /\
+    oct_pos s' = (length pre + length (oct_wire_all (firstn nr xs)))%nat /\
+    (nw = length xs -> nr = length xs ->
+     map oct_rd_value (oct_obs_reads obs) = map (fun ax => Ok (snd ax)) xs /\
+     oct_buf s' = pre ++ oct_wire_all xs /\
+     oct_pos s' = length (oct_buf s') /\
+     oct_pos s' = (length pre + length (oct_wire_all xs))%nat).
+Proof. exact rt_interleaved_lemma. Qed.
+Print Assumptions c11_rt_interleaved.
+
+(* ---- the same with Tidy() allowed at any point of the schedule (oct_tidy = the code of
+   OctetsStream.Tidy: copy the unread bytes to the front, truncate, position = 0; it never
+   panics).  Positions are then relative to the last Tidy, so the final facts are: the unread
+   bytes are exactly the wire formats of the values written and not yet read; the reads
+   consumed, in total, exactly the bytes of the values read (oct_obs_consumed = sum over the
+   reads of Position() after - Position() before); when everything was written and read back
+   position = len and the total consumed = the total bytes written. *)
+Theorem c11_rt_interleaved_tidy : forall v xs (sch : list oct_sop) pre,
+  forallb (fun ax => oct_val_ok (snd ax)) xs = true ->
+  oct_fifo_sched_tidy sch (length xs) = true ->
+  let nw := oct_sched_writes sch in
+  let nr := oct_sched_reads sch in
+  exists obs s',
+    oct_run_sched v sch xs [] {| oct_buf := pre; oct_pos := length pre |} = Some (obs, s') /\
+    Forall2 oct_read_matches (firstn nr xs) (oct_obs_reads obs) /\
+    map oct_rd_value (oct_obs_reads obs) = map (fun ax => Ok (snd ax)) (firstn nr xs) /\
+    oct_obs_consumed obs = length (oct_wire_all (firstn nr xs)) /\
+    (oct_pos s' <= length (oct_buf s'))%nat /\
+    skipn (oct_pos s') (oct_buf s') = oct_wire_all (skipn nr (firstn nw xs)) /\
+    (nw = length xs -> nr = length xs ->
+     map oct_rd_value (oct_obs_reads obs) = map (fun ax => Ok (snd ax)) xs /\
+     oct_obs_consumed obs = length (oct_wire_all xs) /\
+     oct_pos s' = length (oct_buf s')).
+Proof. exact rt_interleaved_tidy_lemma. Qed.
+Print Assumptions c11_rt_interleaved_tidy.
+
+(* what Tidy does: keeps exactly the unread bytes, cursor at 0 *)
+Theorem c11_tidy_keeps_unread : forall s, (oct_pos s <= length (oct_buf s))%nat ->
+  oct_tidy s = Some {| oct_buf := skipn (oct_pos s) (oct_buf s); oct_pos := 0 |}.
+Proof. exact tidy_spec. Qed.
+Print Assumptions c11_tidy_keeps_unread.
+
 (* ---- wire format: for every argument (no range hypothesis: the Go parameter conversion
    is part of le_bytes / mod 2^32) *)
 Theorem c11_wire_fixed : forall s d,
@@ -149,3 +215,23 @@ Example c11_nonvacuous :
          (Ok (OVInt16 (-2)), oct_mk [255; 255; 255; 255; 15; 254; 255; 2; 104; 105] 7, 0);
          (Ok (OVString [104; 105]), oct_mk [255; 255; 255; 255; 15; 254; 255; 2; 104; 105] 10, 2)]).
 Proof. exact c11_example. Qed.
+
+(* non-vacuity of the interleaved theorems: write "hi", int16 -2; read the string; Tidy;
+   write 7-bit 300; read the int16 and the 7-bit int *)
+Example c11_interleaved_nonvacuous :
+  oct_c11i_case [OctSW; OctSW; OctSR; OctST; OctSW; OctSR; OctSR]
+    [(OctViaReader, OVString [104; 105]); (OctViaStream, OVInt16 (-2)); (OctViaReader, OV7Bit 300)] =
+  Some ([OctObW (oct_mk [2; 104; 105] 0);
+         OctObW (oct_mk [2; 104; 105; 254; 255] 0);
+         OctObR 0 (Ok (OVString [104; 105]), oct_mk [2; 104; 105; 254; 255] 3, 2);
+         OctObT (oct_mk [254; 255] 0);
+         OctObW (oct_mk [254; 255; 172; 2] 0);
+         OctObR 0 (Ok (OVInt16 (-2)), oct_mk [254; 255; 172; 2] 2, 0);
+         OctObR 2 (Ok (OV7Bit 300), oct_mk [254; 255; 172; 2] 4, 0)],
+        oct_mk [254; 255; 172; 2] 4).
+Proof. exact c11_interleaved_example. Qed.
+Example c11_interleaved_sched_ok :
+  oct_fifo_sched_tidy [OctSW; OctSW; OctSR; OctST; OctSW; OctSR; OctSR] 3 = true /\
+  oct_fifo_sched [true; true; false; true; false; false] 3 = true /\
+  oct_fifo_sched [true; false; false; true] 3 = false.
+Proof. exact c11_sched_example. Qed.
